@@ -437,7 +437,9 @@ func avpsWithPath(avps []*AVP, path []uint32) []*AVP {
 func (m *Message) FindAVPs(code interface{}, vendorID uint32) ([]*AVP, error) {
 	dictAVP, err := m.Dictionary().FindAVPWithVendor(m.Header.ApplicationID, code, vendorID)
 
-	if err != nil {
+	// A numeric code the dictionary does not define still resolves to
+	// a placeholder (as in AVP.DecodeFromBytes): search for it.
+	if err != nil && dictAVP == nil {
 		return nil, err
 	}
 
@@ -456,7 +458,7 @@ func (m *Message) FindAVPs(code interface{}, vendorID uint32) ([]*AVP, error) {
 func (m *Message) FindAVP(code interface{}, vendorID uint32) (*AVP, error) {
 	dictAVP, err := m.Dictionary().FindAVPWithVendor(m.Header.ApplicationID, code, vendorID)
 
-	if err != nil {
+	if err != nil && dictAVP == nil {
 		return nil, err
 	}
 
@@ -482,7 +484,7 @@ func (m *Message) FindAVPsWithPath(path []interface{}, vendorID uint32) ([]*AVP,
 	pathCodes := make([]uint32, len(path))
 	for i, pathCode := range path {
 		dictAVP, err := m.Dictionary().FindAVPWithVendor(m.Header.ApplicationID, pathCode, vendorID)
-		if err != nil {
+		if err != nil && dictAVP == nil {
 			return nil, err
 		}
 		pathCodes[i] = dictAVP.Code
